@@ -9,6 +9,9 @@
 (* The XMCD kind (HabLayout!XmcdKinds + "raw") is a dimension of the shapes; a third kind of deviation  *)
 (* are the PARSE mutants (pm): the image is right, but SPSDK's own parser loses / shortens / mislabels  *)
 (* the DCD / XMCD segment - the ROM accepts such an image, the round-trip clause must not (ParseMutantRejected). *)
+(* The SHAPE OF THE SUPPLIED DCD (header only / one command / a command of every kind) and its header version  *)
+(* (0x40 / 0x41 / 0x43) are dimensions of the shapes, with the design mutants dcdVerForced / dcdDroppedPtrKept   *)
+(* and the parse mutants dcdVerLost / dcdCmdsLost.                                                             *)
 EXTENDS HabRom, TLC, IOUtils
 
 Full == IF "MC_FULL" \in DOMAIN IOEnv THEN IOEnv.MC_FULL = "1" ELSE FALSE
@@ -22,33 +25,48 @@ Start == <<8192, 7168>>                              \* 0x20001C00
 Shapes ==
   { sh \in [lay : Lays, appLen : AppLens, flags : {"plain", "auth", "enc"}, cfgKind : {"none", "dcd", "xmcd"},
             xk : XmcdKindNames \cup {"raw", "none"},
+            dk : {"none", "hdr", "one", "many"}, dv : {0, 64, 65, 67},      \* shape and header version of the supplied DCD
             fast : BOOLEAN, extra : {0, 1}, imgTgt : (IF Full THEN 2..5 ELSE {2, 5})] :
       /\ (sh.xk = "none") = (sh.cfgKind # "xmcd")
+      /\ (sh.dk = "none") = (sh.cfgKind # "dcd") /\ (sh.dv = 0) = (sh.cfgKind # "dcd")
+      \* the DCD shapes / versions other than (several commands, 0x41): not fast, one application size; quick: on one layout
+      /\ (sh.cfgKind = "dcd" /\ (sh.dk # "many" \/ sh.dv # 65) =>
+            ~sh.fast /\ sh.imgTgt = 2 /\ sh.appLen = 4096 /\ (~Full => sh.lay.ivtOff = 4096))
       /\ (~Full /\ sh.xk \in XmcdKindNames => sh.lay.ivtOff = 4096 /\ ~sh.fast /\ sh.appLen = 4096)    \* quick: the real kinds on one layout
       /\ (sh.flags = "plain" => ~sh.fast /\ sh.extra = 0 /\ sh.imgTgt = 2)
       /\ (~Full /\ sh.flags # "plain" => sh.extra = 1)
       /\ (sh.fast => sh.imgTgt = 2)
       /\ (sh.cfgKind = "xmcd" => sh.lay.ils - sh.lay.ivtOff >= 3072) }
 
-CfgLen(sh) == CASE sh.cfgKind = "none" -> 0 [] sh.cfgKind = "dcd" -> 44 [] sh.xk = "raw" -> 16 [] OTHER -> XmcdKinds[sh.xk].size
+\* header only = the smallest legal DCD (D2 00 04 4x); one Write Data command; a command of every kind
+DcdCmdsMC(dk) == CASE dk = "one" -> << DcdW(1) >> [] dk = "many" -> << DcdW(2), DcdC(0), DcdN, DcdU(1) >> [] OTHER -> << >>
+CfgLen(sh) == CASE sh.cfgKind = "none" -> 0 [] sh.cfgKind = "dcd" -> DcdLen(DcdCmdsMC(sh.dk)) [] sh.xk = "raw" -> 16 [] OTHER -> XmcdKinds[sh.xk].size
 XIface(sh) == IF sh.xk \in XmcdKindNames THEN XmcdKinds[sh.xk].iface ELSE 0
 XType(sh) == IF sh.xk \in XmcdKindNames THEN XmcdKinds[sh.xk].btype ELSE 0
 Inp(sh) == [start |-> Start, ivtOff |-> sh.lay.ivtOff, ils |-> sh.lay.ils, appLen |-> sh.appLen, flags |-> sh.flags,
             cfgKind |-> sh.cfgKind, cfgLen |-> CfgLen(sh), entry |-> AddTo(Start, sh.lay.ils + 257), ver |-> 66,
             nSrk |-> 4, srcIdx |-> 1, fast |-> sh.fast, imgTgt |-> sh.imgTgt, vfyIdx |-> IF sh.fast THEN 0 ELSE sh.imgTgt,
-            macLen |-> 16, dekLen |-> 32, waive |-> << >>, xmcdKind |-> sh.xk]
+            macLen |-> 16, dekLen |-> 32, waive |-> << >>, xmcdKind |-> sh.xk, cfgVer |-> sh.dv, dcdCmds |-> DcdCmdsMC(sh.dk)]
 
 Tampers == {"none", "pad", "ivt", "bd", "cfg", "app", "csfcmds", "srktable", "csfkcert", "csfsig", "imgkcert", "datasig", "mac"}
 Mutants == {"none", "noCfgBlock", "noIvtOffInBlocks", "dataBeforeCsfAuth", "noCsfk", "imgkBySlot1", "shortBootLen",
-            "csfAtAppEnd", "appBlockShort", "macNotOverApp", "selfWithoutIvtOff"}
-ParseMutants == {"none", "dropCfg", "cfgShort", "cfgMoved", "xmcdOtherType", "xmcdOtherIface"}
+            "csfAtAppEnd", "appBlockShort", "macNotOverApp", "selfWithoutIvtOff",
+            "dcdVerForced",          \* the builder re-emits the DCD with header version 0x41 whatever version it was given with
+            "dcdDroppedPtrKept"}     \* the builder leaves the DCD out (fill bytes at IVT + 0x40, no block for it) but the IVT still points there
+DcdMutants == {"dcdVerForced", "dcdDroppedPtrKept"}
+ParseMutants == {"none", "dropCfg", "cfgShort", "cfgMoved", "xmcdOtherType", "xmcdOtherIface",
+                 "dcdVerLost", "dcdCmdsLost"}      \* the parser returns a DCD of version 0x41 / without commands
 Applicable(sh, t, m, pm) ==
   /\ (t # "none" => m = "none")
   /\ (pm # "none" => t = "none" /\ m = "none" /\ sh.cfgKind # "none")
   /\ (pm \in {"xmcdOtherType", "xmcdOtherIface"} => sh.cfgKind = "xmcd")
   \* the real XMCD kinds meet only the deviations that concern the XMCD (the others are explored with the raw block)
   /\ (sh.xk \in XmcdKindNames => t \in {"none", "cfg"} /\ m \in {"none", "noCfgBlock"} /\ sh.imgTgt = 2)
-  /\ (sh.flags = "plain" => t \in {"none", "app"} /\ m \in {"none", "shortBootLen", "selfWithoutIvtOff"})
+  /\ (sh.flags = "plain" => t \in {"none", "app"} /\ m \in {"none", "shortBootLen", "selfWithoutIvtOff"} \cup DcdMutants)
+  /\ (m \in DcdMutants \/ pm \in {"dcdVerLost", "dcdCmdsLost"} => sh.cfgKind = "dcd")
+  /\ (m = "dcdVerForced" \/ pm = "dcdVerLost" => sh.dv # 65) /\ (pm = "dcdCmdsLost" => sh.dk # "hdr")
+  \* the other DCD shapes / versions meet only the deviations that concern the DCD
+  /\ (sh.cfgKind = "dcd" /\ (sh.dk # "many" \/ sh.dv # 65) => t \in {"none", "cfg"} /\ m \in {"none", "noCfgBlock"} \cup DcdMutants)
   /\ (t = "cfg" \/ m = "noCfgBlock" => sh.cfgKind # "none")
   /\ (t \in {"csfkcert", "imgkcert"} \/ m \in {"noCsfk", "imgkBySlot1"} => ~sh.fast)
   /\ (t = "mac" \/ m = "macNotOverApp" => sh.flags = "enc")
@@ -64,7 +82,8 @@ Events(sh, t, m, pm) ==
       plain == sh.flags = "plain"   enc == sh.flags = "enc"
       nExtra == sh.extra
       \* CSF: header 4, SRK 12, [CSFK 12], AuthCsf 12, [IMGK 12], AuthData 12 + 8 nb, [Secret 12, Decrypt 20], extra 8 each
-      cfgBlk == IF sh.cfgKind = "none" \/ m = "noCfgBlock" THEN << >> ELSE << Blk(sh, 64, CfgLen(sh), m) >>
+      noDcd == m = "dcdDroppedPtrKept"
+      cfgBlk == IF sh.cfgKind = "none" \/ m = "noCfgBlock" \/ noDcd THEN << >> ELSE << Blk(sh, 64, CfgLen(sh), m) >>
       appBlk == IF enc THEN << >> ELSE << Blk(sh, L.app, IF m = "appBlockShort" THEN Align(p.appLen, 16) - 16 ELSE Align(p.appLen, 16), m) >>
       dblocks == << Blk(sh, 0, 64, m) >> \o cfgBlk \o appBlk
       eblocks == << Blk(sh, IF m = "macNotOverApp" THEN L.app + 16 ELSE L.app, IF m = "macNotOverApp" THEN Align(p.appLen, 16) - 16 ELSE Align(p.appLen, 16), "none") >>
@@ -87,7 +106,10 @@ Events(sh, t, m, pm) ==
               csf |-> IF plain THEN <<0, 0>> ELSE A(sh, csfAt), fileLen |-> L.fileLen]
       bd == [ev |-> "BootData", at |-> 32, start |-> Start, plugin |-> 0,
              len |-> IF m = "shortBootLen" THEN (IF plain THEN p.ivtOff + L.app + p.appLen - 4 ELSE p.ivtOff + csfAt) ELSE L.bdLen]
-      cfg == IF sh.cfgKind = "dcd" THEN << [ev |-> "Dcd", at |-> 64, tag |-> 210, len |-> CfgLen(sh), match |-> t # "cfg"] >>
+      \* the DCD mutants change the NUMBERS the ROM reads; the byte comparison stays TRUE (strongest adversary)
+      cfg == IF sh.cfgKind = "dcd" THEN << [ev |-> "Dcd", at |-> 64, tag |-> IF noDcd THEN 0 ELSE 210, len |-> IF noDcd THEN 0 ELSE CfgLen(sh),
+                                            ver |-> IF noDcd THEN 0 ELSE IF m = "dcdVerForced" THEN 65 ELSE sh.dv,
+                                            cmds |-> IF noDcd THEN << >> ELSE DcdCmdsMC(sh.dk), match |-> t # "cfg"] >>
              ELSE IF sh.cfgKind = "xmcd" THEN << [ev |-> "Xmcd", at |-> 64, tag |-> 12, ver |-> 0, size |-> CfgLen(sh), iface |-> XIface(sh),
                                                    inst |-> 0, btype |-> XType(sh), match |-> t # "cfg"] >>
              ELSE << >>
@@ -132,6 +154,8 @@ Events(sh, t, m, pm) ==
              xIface |-> IF sh.cfgKind # "xmcd" \/ pm = "dropCfg" THEN -1 ELSE IF pm = "xmcdOtherIface" THEN 1 - XIface(sh) ELSE XIface(sh),
              xInst |-> IF sh.cfgKind # "xmcd" \/ pm = "dropCfg" THEN -1 ELSE 0,
              xType |-> IF sh.cfgKind # "xmcd" \/ pm = "dropCfg" THEN -1 ELSE IF pm = "xmcdOtherType" THEN 1 - XType(sh) ELSE XType(sh),
+             dVer |-> IF sh.cfgKind # "dcd" \/ pm = "dropCfg" THEN -1 ELSE IF pm = "dcdVerLost" THEN 65 ELSE sh.dv,
+             dN |-> IF sh.cfgKind # "dcd" \/ pm = "dropCfg" THEN -1 ELSE IF pm = "dcdCmdsLost" THEN 0 ELSE Len(DcdCmdsMC(sh.dk)),
              appAt |-> L.app, cStart |-> Start, cIvtOff |-> p.ivtOff,
              nCmds |-> IF plain THEN 0 ELSE Len(cmds0), ivtEq |-> TRUE, bdEq |-> TRUE, cfgEq |-> TRUE, appEq |-> TRUE, csfEq |-> TRUE, reexpEq |-> TRUE]
   IN << ivt, bd >> \o cfg \o << app >> \o (IF plain THEN << >> ELSE << hdr >> \o cmds \o << endev >>)
@@ -194,6 +218,13 @@ ParseMutantRejected == (pm # "none") => /\ s.st # "Done"
 \* every XMCD kind is accepted under every flag that can carry it, and parses back (non-vacuity of the kind dimension)
 ASSUME XmcdKindsReached == \A k \in XmcdKindNames \cup {"raw"}, f \in {"plain", "auth", "enc"} :
                       \E c \in Cases : c[1].xk = k /\ c[1].flags = f /\ c[2] = "none" /\ c[3] = "none" /\ c[4] = "none"
+\* every shape of the supplied DCD (header only / one command / every kind) x header version is accepted under every flag and parses
+\* back; the builder that forces the version / drops the DCD but keeps the pointer is in scope for the HAB 4.0 header-only DCD
+ASSUME DcdShapesReached ==
+  /\ \A k \in {"hdr", "one", "many"}, ver \in {64, 65, 67}, f \in {"plain", "auth", "enc"} :
+        \E c \in Cases : c[1].dk = k /\ c[1].dv = ver /\ c[1].flags = f /\ c[2] = "none" /\ c[3] = "none" /\ c[4] = "none"
+  /\ \A mm \in DcdMutants, f \in {"plain", "auth", "enc"} : \E c \in Cases : c[1].dk = "hdr" /\ c[1].dv = 64 /\ c[1].flags = f /\ c[3] = mm
+  /\ \A f \in {"plain", "auth", "enc"} : \E c \in Cases : c[1].dv = 64 /\ c[1].flags = f /\ c[4] = "dcdVerLost"
 PadDontCare == (t = "pad") => IF Finished THEN s.st = "Done" ELSE CanStep
 TamperRejected == (t \notin {"none", "pad"}) => s.st \notin {"Accepted", "Done"}
 MutantRejected == (m # "none") => s.st \notin {"Accepted", "Done"}
